@@ -495,9 +495,20 @@ class ClusterSim:
                 raise SimAbort("deadlock")
             if self.slow_data:
                 # every step is still possible at every point; commands waiting at a data server are just picked less often
-                weighted = [j for j, st_ in enumerate(steps) for _ in range(1 if (st_[0] == "D" and st_[2] == "ctrl") else 5)]
+                def _slow(st_):
+                    if not (st_[0] == "D" and st_[2] == "ctrl"):
+                        return False
+                    if self.slow_data != "dups":
+                        return True
+                    # "dups": only commands that repeat an earlier command for the same (dataset, destination) stay pending: the
+                    # first copy arrives quickly, its consumers run and complete, the redundant command is still unanswered
+                    what, x = self.q_ds[st_[1]][st_[2]][0]
+                    return what == "cmd" and any(t is not x and t["idx"] < x["idx"] and t["ds"] == x["ds"] and t["dst"] == x["dst"]
+                                                 for t in self.transfers)
+
+                weighted = [j for j, st_ in enumerate(steps) for _ in range(1 if _slow(st_) else (8 if self.slow_data == "dups" else 5))]
                 if can_return:
-                    weighted += [len(steps)] * 5
+                    weighted += [len(steps)] * (8 if self.slow_data == "dups" else 5)
                 i = weighted[self.ch.choose(len(weighted))]
             else:
                 n = len(steps) + (1 if can_return else 0)
